@@ -832,6 +832,23 @@ def _exits_with_return(body: list[ast.stmt]) -> bool:
     return False
 
 
+def _as_expr_body(callee: ast.FunctionDef) -> ast.expr | None:
+    """the helper's result as one expression: `return E`, or guard returns `if c: return E1` ... `return En` -> `E1 if c else (... En)`"""
+    b = _body_wo_doc(callee)
+    if not b or not isinstance(b[-1], ast.Return) or b[-1].value is None:
+        return None
+    guards = []
+    for st in b[:-1]:
+        if isinstance(st, ast.If) and not st.orelse and len(st.body) == 1 and isinstance(st.body[0], ast.Return) and st.body[0].value is not None:
+            guards.append((st.test, st.body[0].value))
+        else:
+            return None
+    e = b[-1].value
+    for test, val in reversed(guards):
+        e = ast.IfExp(test=test, body=val, orelse=e)
+    return e
+
+
 class _Inliner:
     def __init__(self, helpers: dict[str, tuple[ast.FunctionDef, bool]], log: list[str]) -> None:
         # key: call spelling ("name", "self.name", "cls.name", "Class.name") -> (FunctionDef, skip_first_param)
@@ -927,9 +944,11 @@ class _Inliner:
                 if c is None:
                     return n
                 callee, skip = c
-                b = _body_wo_doc(callee)
-                if len(b) == 1 and isinstance(b[0], ast.Return) and b[0].value is not None:
-                    inst = self._instantiate(callee, n, skip, caller)
+                eb = _as_expr_body(callee)
+                if eb is not None:
+                    shim = copy.copy(callee)
+                    shim.body = [ast.Return(value=eb)]
+                    inst = self._instantiate(shim, n, skip, caller)
                     if inst is not None and len(inst) == 1 and isinstance(inst[0], ast.Return):
                         self.log.append(f"inlined expression helper {callee.name} into {caller.name}")
                         nonlocal changed
@@ -957,7 +976,7 @@ class _Inliner:
             return None
         callee, skip = c
         b = _body_wo_doc(callee)
-        if len(b) == 1 and isinstance(b[0], ast.Return):
+        if _as_expr_body(callee) is not None:
             return None  # handled at expression level
         inst = self._instantiate(callee, call, skip, caller)
         if inst is None:
